@@ -350,14 +350,14 @@ def finish(res, level, checker_cmd, rule, explanation=None):
         n += 1
         rp = os.path.join("replays", pid, f"violation-{n}.txt")
         with open(os.path.join(VERIF, rp), "w", encoding="utf-8") as f:
-            f.write(f"property: {pid}\nwhat: {what}\nreplay-input:\n{replay}\n")
+            f.write(f"property: {pid}\nseed: {res.seed}\ntier: {res.tier}\nreproduce: VERIF_SEED={res.seed} ./check {pid} --tier {res.tier}\nwhat: {what}\nreplay-input:\n{replay}\n")
             f.write("\nbroken obligations at the time:\n" + "\n".join(f"  {k} {nm}: {d}" for k, nm, d in res.broken) + "\n")
         lines.append(f"VIOLATION property={pid} replay={rp}")
         status = 1
     if res.broken and not reported:
         rp = os.path.join("replays", pid, "unproved-1.json")
         with open(os.path.join(VERIF, rp), "w", encoding="utf-8") as f:
-            json.dump({"property": pid,
+            json.dump({"property": pid, "seed": res.seed, "tier": res.tier,
                        "no_longer_checks": [{"kind": k, "name": nm, "detail": d} for k, nm, d in res.broken],
                        "search": "the property's search over corpus, generated and targeted inputs found no failing input",
                        "cases_searched": res.cases}, f, indent=1)
